@@ -469,6 +469,19 @@ func init() {
 			}
 			c.op("huffdec " + hx(e))
 			c.op("rdvarint " + strconv.Itoa(r.rangeI(1, 8)) + " " + hx(r.bytes(r.intn(12))))
+			{
+				// an integer spelled with 8..12 continuation octets (the limit is nine): prefix all ones, k-1 octets with the
+				// continuation bit, a final octet
+				n := r.rangeI(1, 8)
+				k := r.rangeI(8, 12)
+				b := []byte{byte(1<<n - 1)}
+				for j := 0; j < k-1; j++ {
+					b = append(b, 0x80|byte(r.intn(2)*r.intn(128)))
+				}
+				b = append(b, byte(r.intn(128)))
+				c.tag(fmt.Sprintf("varint-continuations:%d", k))
+				c.op("rdvarint " + strconv.Itoa(n) + " " + hx(b))
+			}
 		}
 	})
 }
